@@ -445,6 +445,7 @@ func search(f *vh.Flags, o *vh.Out) {
 func main() {
 	f := vh.ParseFlags()
 	o := vh.NewOut(f.Out)
+	o.Samples = []string{} // never null in stats.json (a run cut short by a hang has no samples)
 	defer o.Close()
 	if f.Replay != "" {
 		replay(f.Replay, o)
